@@ -1056,7 +1056,8 @@ fn main() {
         "oracle-dhcpzero" => {
             // Known finding dhcp-zero-timeout-spins-poll (D29): one DHCPv4 socket whose retry configuration has
             // discover_timeout = 0 (only shard 0 runs it; `zero=0` is the control with the default configuration).
-            // Interface::poll runs on a second thread; if it has not returned after 0.8 s the case is reported.
+            // Interface::poll runs on a second thread; if it has not returned after 0.8 s the case is reported
+            // (the control run gets 20 s: it returns at once, the margin is for a loaded machine).
             let run = |zero: bool| -> Option<usize> {
                 let (txc, rxc) = std::sync::mpsc::channel();
                 std::thread::spawn(move || {
@@ -1074,7 +1075,7 @@ fn main() {
                     iface.poll(Instant::from_millis(1000), &mut dev, &mut sockets);
                     let _ = txc.send(dev.drain_tx().len());
                 });
-                rxc.recv_timeout(std::time::Duration::from_millis(800)).ok()
+                rxc.recv_timeout(std::time::Duration::from_millis(if zero { 800 } else { 20_000 })).ok()
             };
             let mut nf = 0;
             if seed % 1000 == 0 {
